@@ -655,6 +655,9 @@ theorem step_pk (rc : Bool) (h : Rel m db) (he : ElemsOK m.raws db) (hp : PkOK m
         exact hpv
       · exact fun y hy => hsh y ((List.eraseIdx_sublist _ _).subset hy)
   | commentOn t c text => simp [Stmt.elemSafe, Stmt.colSafe] at hs
+  | alterType t c typ => simp [Stmt.elemSafe, Stmt.colSafe] at hs
+  | setDefault t c d => simp [Stmt.elemSafe, Stmt.colSafe] at hs
+  | dropNotNull t c => simp [Stmt.elemSafe, Stmt.colSafe] at hs
 
 theorem run_pk (rc : Bool) (ss : List Stmt) : ∀ (m : Migration) (db db' : DB), Rel m db → ElemsOK m.raws db →
     PkOK m.raws db → ss.all Stmt.elemSafe = true → ss.all Stmt.tablePk = true → execAll rc db ss = some db' →
